@@ -25,8 +25,11 @@ impl Apply for CursiveAdjustment<'_> {
 
         let i = iter.index();
         let prev = ctx.buffer.info[i].as_glyph();
-        let index_prev = self.coverage.get(prev)?;
-        let Some(exit_prev) = self.sets.exit(index_prev) else {
+        let Some(exit_prev) = self
+            .coverage
+            .get(prev)
+            .and_then(|index_prev| self.sets.exit(index_prev))
+        else {
             ctx.buffer
                 .unsafe_to_concat_from_outbuffer(Some(iter.index()), Some(ctx.buffer.idx + 1));
             return None;
